@@ -150,7 +150,9 @@ Next ==
   /\ l <= Len(Rec)
   /\ l' = l + 1
   /\ LET e == Rec[l] IN
-     IF e.ev = "reset" THEN
+     IF e.ev = "reset_after_crash" THEN      \* the process died in this run (reported by the orchestrator)
+        /\ failed' = TRUE /\ UNCHANGED <<st, viol, outs>>
+     ELSE IF e.ev = "reset" THEN
         /\ st' = NewRun(e) /\ failed' = FALSE /\ UNCHANGED <<viol, outs>>
      ELSE IF failed /\ e.ev # "end" THEN UNCHANGED <<st, failed, viol, outs>>
      ELSE LET r == Step(st, e) IN
